@@ -1,8 +1,9 @@
 from common import *
 import itertools
 ID = 'C14'
-TRANSLATORS = []
-COQ_TARGETS = ['Properties_C14.vo']
+TRANSLATORS = [('consts2coq.py', ['coq/Gen/Consts.v'])]
+GEN_FILES = ['coq/Gen/Consts.v']
+COQ_TARGETS = ['Properties_C14.vo', 'Proof/ConstsVarint.vo']
 HARNESS_MODS = ['vi']
 RULE = ('cases: vi.enc kind value bufsize used offset (encode into a zeroed exact-size heap buffer; obs: return value, length query, used, '
         'offset, memory) / vi.dec kind octets offset (buffer decoder on an exact-size heap block so the buffer ends at the truncation point; '
